@@ -58,7 +58,7 @@ func init() {
 		TargetPath + ".vxObserveU64": extVxObserveInt,
 		TargetPath + ".vxObserveBytes": extVxObserveBytes,
 		TargetPath + ".vxQuiesce":    func(fr *frame, a []value) value { fr.i.yieldIdle(fr.g, "quiesce"); return nil },
-		TargetPath + ".vxYield":      func(fr *frame, a []value) value { fr.i.park(fr.g, "yield", func() bool { return true }); return nil },
+		TargetPath + ".vxYield":      func(fr *frame, a []value) value { fr.i.yieldToOther(fr.g); return nil },
 		TargetPath + ".vxReach":      func(fr *frame, a []value) value { fr.i.ps.reached[a[0].(string)] = true; return nil },
 		TargetPath + ".vxSymbolic":   func(fr *frame, a []value) value { return true },
 		TargetPath + ".vxTier":       func(fr *frame, a []value) value { return fr.i.cfg.Tier },
